@@ -1,9 +1,9 @@
 W3 = "(h4 == 13 && h3 == 10 && h2 == 46 && h1 == 13)"
 W2 = "(h3 == 13 && h2 == 10 && h1 == 46)"
 W1 = "(h2 == 13 && h1 == 10)"
-GH = "h1, h2, h3, h4, __CPROVER_object_whole(g_exp), g_explen, g_term, g_stray, g_consumed, g_failed, g_hops, bytestooverflow"
+GH = "h1, h2, h3, h4, __CPROVER_object_whole(g_exp), g_explen, g_term, g_stray, g_consumed, g_failed, g_hops, bytestooverflow, g_stored"
 PROOF = dict(
-    properties=["C05"],
+    properties=["C05", "C07"],
     title="qmail-smtpd.c blast(): decoded bytes = reference CRLF/dot decoder; ends exactly at CR LF . CR LF; bare LF refused",
     functions=["qmail-smtpd.c:blast", "qmail-smtpd.c:put"],
     units=["harness.c", "stubs2.c"],
@@ -12,7 +12,8 @@ PROOF = dict(
     loops=[
         dict(function="blast", head="for (;;)",
              invariants="state == (%s ? 3 : %s ? 2 : %s ? 1 : h1 == 13 ? 4 : 0) && g_explen == 0 && !g_term && !g_stray"
-                        " && 0 <= pos && pos <= 9 && 0 <= g_hops && g_hops <= g_consumed && hops == &g_hops" % (W3, W2, W1),
+                        " && 0 <= pos && pos <= 9 && 0 <= g_hops && g_hops <= g_consumed && hops == &g_hops"
+                        " && g_stored <= 3ul * (unsigned long)g_consumed && (g_stored >= 4000000000ul || bytestooverflow == 4000000000u - (unsigned)g_stored)" % (W3, W2, W1),
              assigns="ch, state, flaginheader, pos, flagmaybex, flagmaybey, flagmaybez, " + GH,
              symbols={"ch": "blast::1::ch", "state": "blast::1::state", "flaginheader": "blast::1::flaginheader",
                       "pos": "blast::1::pos", "flagmaybex": "blast::1::flagmaybex", "flagmaybey": "blast::1::flagmaybey",
@@ -28,6 +29,7 @@ PROOF = dict(
     assumptions=["C05: DATA streams shorter than 2 GiB (the hop counter is an int)",
                  "C05: '. CR x' at a line start (a line no conforming sender produces): the property is silent; the reference accepts what the code does (dot kept)"],
     canaries=[
+        dict(name="two-bytes-bypass-the-size-counter", file="qmail-smtpd.c", literal=True, pattern='        put(".");\n        put("\\r");', repl='        qmail_put(&qqt,".\\r",2);', expect=r"."),
         dict(name="bare-lf-accepted-in-state-0", file="qmail-smtpd.c", literal=True,
              pattern="      case 0:\n        if (ch == '\\n') straynewline();", repl="      case 0:", expect=r"C05"),
         dict(name="dot-lf-ends-message", file="qmail-smtpd.c", literal=True,
